@@ -5,7 +5,7 @@ from props.m2common import g, sx, rng_for, fl, close, same, is_err, env_points
 PID = "C10"
 RUNNER = "impl_m2.py"
 N = {"quick": 1500, "thorough": 40000}
-LEVEL_RULE = ("envelopes (plain and FlexTempo) as C08; histories of 1-12 reads over all public reads (value_at, parameter_at, "
+LEVEL_RULE = ("envelopes (plain and FlexTempo) as C08, 10 % with a curve shape below the 10-digit resolution (4e-11 ...); histories of 1-12 reads over all public reads (value_at, parameter_at, "
               "curve_shape_at, point_at, time_range_to_point_tuple, integrate_interval, get_average_value/parameter, is_static, "
               "value/parameter/curve_shape tuples) with arbitrary arguments on ONE live object; after every read the control points "
               "are snapshotted and the same read is asked of an untouched copy. non-trivial = the history contains a curve_shape_at / "
@@ -24,6 +24,9 @@ def gen(seed, index):
         # tiny envelopes whose only / last event has a positive duration (defaults such as end = duration alias internal objects)
         G2 = g.GE(rng, last_positive=True)
         e = G2.env(rng.choice([1, 1, 2]))
+    if rng.random() < 0.1:
+        # numeric edge: a curve shape that is not 0 but below the 10-digit resolution (a read must not "normalise" it)
+        rng.choice(e[1:])[2] = g.hexf(rng.choice([4e-11, -3e-11, 9e-11, 1e-12]))
     qs = []
     for _ in range(rng.randint(1, 12)):
         k = rng.choice(["value_at", "parameter_at", "curve_shape_at", "curve_shape_at", "point_at", "point_at", "range", "range",
@@ -49,6 +52,8 @@ def compare(case, mo, io):
     for k, (q, a, b) in enumerate(zip(case[2:], mo[1:], io[1:])):
         if g.near_jump(case[1], int(q[1])) if len(q) > 1 else False:
             continue
+        if is_err(b) and b[1] == "ZeroDivisionError" and not is_err(a) and ("nan" in sx.show(a) or "inf" in sx.show(a)):
+            continue    # exp(c) - 1 underflows to 0 for a sub-resolution shape: Python raises where IEEE arithmetic gives nan / inf
         if not same(a, b, rel=1e-9, abs_=1e-12):
             return f"read {k} {sx.show(q)}: model {sx.show(a)} impl {sx.show(b)}"
     return None
